@@ -103,13 +103,12 @@ theorem finishDir_deleted (m : M Prim) (g : GS) : (finishDir m g).1.deleted = g.
     starting point: nothing is removed that the walk does not visit, nothing twice (those paths are
     pairwise distinct: `visitsN_paths`, `pathsN_nodup`), nothing out of order. -/
 theorem whole_walk_deleted (c : Config) (m : M Prim) (start : Bytes) (root : Node Attr) (g : GS)
-    (hpost : (refCfg c).depthFirst = true)
-    (hH : ¬ HRootLink (refCfg c) (if c.sorted then sortNode root else root)) :
+    (hpost : (refCfg c).depthFirst = true) :
     let n := if c.sorted then sortNode root else root
     ∃ L, (processDir c m start (some root) g).gs.deleted = g.deleted ++ L ∧
       L.Sublist ((visitsN (refCfg c) [] 0 n).map fun v => pathOf start v.ent.rpath) := by
   intro n
-  have hroot := processRoot_post (refCfg c) (evalEntry m start) hpost n hH { g with curDir := none }
+  have hroot := processRoot_postAny (refCfg c) (evalEntry m start) hpost n { g with curDir := none }
   have hsub := refNode_sub (refCfg c) (evalEntry m start) (TD start)
     (fun s => ⟨[], by simp, by simp⟩)
     (fun a b cc l1 l2 h1 h2 => by
